@@ -721,7 +721,7 @@ def _desc(case: dict[str, Any]) -> dict[str, Any]:
 
 
 def nontrivial(case: dict[str, Any]) -> bool:
-    if case["mode"] == "refuse":
+    if case["mode"] in ("refuse", "scaled"):
         return True
     lens = [len(case["a"]), len(case["b"]), len(case["c"])]
     if len(set(lens[:2])) > 1 or min(lens[:2]) < 3:
@@ -758,7 +758,91 @@ def _labels(case: dict[str, Any]) -> list[str]:
     return labs
 
 
+# ------------------------------------------------------------------------------------------------
+# float vectors at microscopic / astronomic scale: the same laws, judged RELATIVE to the vectors (dyadic scale factors,
+# so that the scaled components are exact binary numbers and the Fraction model stays exact)
+
+
+@st.composite
+def scaled_case(draw: Any) -> dict[str, Any]:
+    comp = st.integers(-40, 40).filter(lambda x: x != 0)
+    return {"mode": "scaled", "a": [draw(comp) for _ in range(draw(st.integers(1, 3)))],
+        "b": [draw(comp) for _ in range(draw(st.integers(1, 3)))],
+        "ea": draw(st.sampled_from([-70, -100, -60, 40, 0])), "eb": draw(st.sampled_from([0, 0, -70, 10]))}
+
+
+def judge_scaled(case: dict[str, Any]) -> tuple[list[tuple[str, str]], list[str]]:
+    import sympy
+    from symplyphysics import Vector
+    from symplyphysics.core.vectors import arithmetics as ar
+    fa, fb = Fraction(2)**case["ea"], Fraction(2)**case["eb"]
+    ma = m_pad([Fraction(x) * fa for x in case["a"]])
+    mb = m_pad([Fraction(x) * fb for x in case["b"]])
+    A = Vector([sympy.Float(float(x)) for x in ma[:len(case["a"])]])
+    B = Vector([sympy.Float(float(x)) for x in mb[:len(case["b"])]])
+    na2, nb2, dab = m_dot(ma, ma), m_dot(mb, mb), m_dot(ma, mb)
+    la, lb_ = _mp(na2)**0.5, _mp(nb2)**0.5
+    out: list[tuple[str, str]] = []
+    labels = [f"scaled:ea={case['ea']}", f"scaled:eb={case['eb']}"]
+    ctxt = f"[a={case['a']}*2^{case['ea']} b={case['b']}*2^{case['eb']}]"
+
+    def vec_near(key: str, what: str, got: Any, want: list[Fraction], scale: Any) -> None:
+        if got is None or any(k == key for k, _ in out):
+            return
+        comps = list(got.components) + [0] * (3 - len(got.components))
+        for i in range(3):
+            try:
+                g = _mp(lib_value(comps[i], {}))
+            except Undefined as exc:
+                out.append((key, f"{what}: component {i} undefined ({exc}) {ctxt}"))
+                return
+            if abs(g - _mp(want[i])) > _mp(Fraction(1, 10**11)) * scale:
+                out.append((key, f"{what}: component {i} is {g}, expected {_mp(want[i])} (relative to the vector length {scale}) {ctxt}"))
+                return
+
+    def guard(key: str, fn: Callable[[], Any]) -> Any:
+        try:
+            return fn()
+        except Exception as exc:  # pylint: disable=broad-except
+            out.append((_exc_key(exc), f"{key}: {type(exc).__name__}: {exc} {ctxt}"))
+            return None
+
+    pr = guard("project", lambda: ar.project_vector(A, B))
+    rj = guard("reject", lambda: ar.reject_cartesian_vector(A, B))
+    k = dab / nb2
+    want_pr = [k * x for x in mb]
+    want_rj = [x - y for x, y in zip(ma, want_pr)]
+    vec_near("scaled:project", "project_vector(a, b)", pr, want_pr, la)
+    vec_near("scaled:reject", "reject_cartesian_vector(a, b)", rj, want_rj, la)
+    if pr is not None and rj is not None:
+        vec_near("scaled:project-plus-reject", "project + reject", guard("add", lambda: ar.add_cartesian_vectors(pr, rj)), ma, la)
+    vec_near("scaled:cross", "cross_cartesian_vectors(a, b)", guard("cross", lambda: ar.cross_cartesian_vectors(A, B)),
+        m_cross(ma, mb), la * lb_)
+    sc = guard("scale", lambda: ar.scale_vector(sympy.Float(2.0**-30), A))
+    vec_near("scaled:scale", "scale_vector(2^-30, a)", sc, [x * Fraction(2)**-30 for x in ma], la * _mp(Fraction(2)**-30))
+    un = guard("unit", lambda: ar.vector_unit(A))
+    if un is not None:
+        try:
+            m2 = _mp(lib_value(ar.dot_vectors(un, un), {}))
+            if abs(m2 - 1) > _mp(Fraction(1, 10**11)):
+                out.append(("scaled:unit", f"dot(unit(a), unit(a)) = {m2} {ctxt}"))
+        except (Undefined, Exception) as exc:  # pylint: disable=broad-except
+            out.append(("scaled:unit", f"unit vector of a: {type(exc).__name__}: {exc} {ctxt}"))
+    try:
+        mg = _mp(lib_value(ar.vector_magnitude(A), {}))
+        if abs(mg - la) > _mp(Fraction(1, 10**11)) * la:
+            out.append(("scaled:magnitude", f"vector_magnitude(a) = {mg}, expected {la} {ctxt}"))
+        dd = _mp(lib_value(ar.dot_vectors(A, B), {}))
+        if abs(dd - _mp(dab)) > _mp(Fraction(1, 10**11)) * la * lb_:
+            out.append(("scaled:dot", f"dot_vectors(a, b) = {dd}, expected {_mp(dab)} {ctxt}"))
+    except Exception as exc:  # pylint: disable=broad-except
+        out.append(("scaled:magnitude", f"{type(exc).__name__}: {exc} {ctxt}"))
+    return out, labels
+
+
 def judge(case: dict[str, Any]) -> tuple[list[tuple[str, str]], list[str]]:
+    if case["mode"] == "scaled":
+        return judge_scaled(case)
     if case["mode"] == "refuse":
         return judge_refusal(case), [f"refuse:{case['op']}", f"refuse_combo:{case['combo']}"]
     viol, labs = judge_laws(case)
@@ -778,6 +862,9 @@ def _shard(task: dict[str, Any]) -> Recorder:
         for case in task["cases"]:
             _record(rec, case)
         return rec
+    if task["kind"] == "scaled":
+        hyp_run(scaled_case(), lambda case: _record(rec, case), task["n"], task["seed"])
+        return rec
     hyp_run(case_strategy(), lambda case: _record(rec, case), task["n"], task["seed"])
     return rec
 
@@ -796,6 +883,8 @@ def run(ctx: Ctx) -> None:
         tasks.append({"kind": "list", "cases": refusals[i::4]})
     for i, n in enumerate(shard_counts(n_gen, 32)):
         tasks.append({"kind": "gen", "n": n, "seed": ctx.seed * 1000 + i})
+    for i, n in enumerate(shard_counts(ctx.pick(400, 8000), 4)):
+        tasks.append({"kind": "scaled", "n": n, "seed": ctx.seed * 1000 + 500 + i})
     for status, val in run_tasks(_shard, tasks):
         if status != "ok":
             raise RuntimeError(f"C10 shard failed: {status}: {val}")
